@@ -24,6 +24,7 @@
 #include <kernel/adjacency/permutation.hpp>
 #include <kernel/adjacency/coloring.hpp>
 #include <kernel/adjacency/cuthill_mckee.hpp>
+#include <kernel/util/random.hpp>
 #include <kernel/lafem/dense_vector.hpp>
 #include <kernel/lafem/sparse_matrix_csr.hpp>
 
@@ -453,6 +454,21 @@ namespace
     }
     else c.excluded("sort_indices() on a graph without domain pointer / without indices while the sorted-render probe fails");
     if(nidx == 0) c.excluded("permute_indices() on a graph without indices (asserted precondition)");
+    // allocation constructor filled through the non-const array accessors; clear() and re-use of the cleared object
+    {
+      Graph a(r.nd, r.ni, nidx);
+      Index* dp = a.get_domain_ptr(); Index* ix = a.get_image_idx();
+      Index k = 0; dp[0] = 0;
+      for(Index i = 0; i < r.nd; ++i) { for(Index j : r.l[i]) ix[k++] = j; dp[i + 1] = k; }
+      Rel got; c.check(read_graph(a, got, err) && got == r, "graph.allocation ctor + get_domain_ptr/get_image_idx", [&]{ return err + str(got); });
+      a.clear();
+      c.check(a.get_num_nodes_domain() == 0 && a.get_num_nodes_image() == 0 && a.get_num_indices() == 0 && a.degree() == 0, "graph.clear", "");
+      Graph e(RenderType::as_is, a);
+      c.check(e.get_num_nodes_domain() == 0 && e.get_num_indices() == 0, "graph.render of a cleared graph", "");
+      a = make_graph(r, true);
+      c.check(read_graph(a, got, err) && got == r, "graph.move-assign into a cleared graph", [&]{ return err + str(got); });
+      c.count("graph_clear");
+    }
     // serialisation round trip
     {
       std::vector<char> buf = g.serialize();
@@ -637,9 +653,11 @@ int main(int argc, char** argv)
   spec.assumptions = {
     "reference = list/set based definitions written in the harness (render types, composition, permutation as bijection y[i]=x[P(i)], level-structure Cuthill-McKee with stable degree sort)",
     "excluded (asserted preconditions): Permutation(n=0,...), CuthillMcKee on 0 nodes, explicit permute_indices() on a graph without indices, sort_indices() on a graph without domain pointer, composite render with mismatching inner dimensions, colouring arrays with colour gaps",
+    "not exercised (out of the property's scope): export_tga.hpp, CUDA branches of coloring.hpp; cuthill_mckee.hpp contains declarations only",
     "colouring is checked on symmetric relations only (the greedy algorithm looks at lower-numbered neighbours); self loops are allowed and ignored for properness",
     "six defect classes (all repaired in /repo meanwhile) are probed once in a forked child; if a probe fails it is reported under a stable key and the inputs of that class are counted as excluded"};
   spec.max_samples = 8;
+  spec.case_timeout_s = 120; // a non-bijective ordering makes Permutation::calc_swap_from_perm loop forever inside CuthillMcKee::compute; report such hangs quickly
 
   return verif::run(spec, argc, argv, [&](verif::Ctx& c) {
     const bool T = c.thorough;
@@ -779,6 +797,31 @@ int main(int argc, char** argv)
         else c.excluded("in-place inverse apply of the empty permutation (reported once as finding)");
         Permutation Q; Q.concat(P);
         c.check(Q.size() == 0, "permutation.empty concat", "");
+      }
+      // the random constructor (FEAT's deterministic generator with its default and a second seed): whatever it draws must be a
+      // bijection with a consistent swap array; the auxiliary image iterators of adjactor.hpp
+      if(c.want())
+      {
+        c.desc([]{ return std::string("C Permutation(n, Random&) for n=1..12, two seeds; IndexImageIterator / NullImageIterator"); });
+        for(int seed = 0; seed < 2; ++seed)
+        {
+          Random rng = seed ? Random(Random::SeedType(4711)) : Random();
+          for(Index n = 1; n <= 12; ++n)
+          {
+            Permutation P(n, rng);
+            bool ok = P.size() == n && is_bijection(P.get_perm_pos(), n);
+            c.check(ok, "permutation.random ctor is no bijection", [&]{ return str(IV(P.get_perm_pos(), P.get_perm_pos() + P.size())); });
+            if(ok) { IV e(P.get_perm_pos(), P.get_perm_pos() + n); c.check(perm_consistent(P, e, err), "permutation.random ctor swap array", [&]{ return err; }); }
+            c.count("random_permutations");
+          }
+        }
+        Adjactor::IndexImageIterator a(3), b(5), d;
+        Index cnt = 0, sum = 0;
+        for(Adjactor::IndexImageIterator it(a); it != b; ++it) { ++cnt; sum += *it; }
+        Adjactor::IndexImageIterator e2; e2 = b;
+        c.check(cnt == 2 && sum == 7 && *d == 0 && !(e2 != b) && (a != b), "adjactor.IndexImageIterator", "");
+        Adjactor::NullImageIterator n1, n2;
+        c.check(!(n1 != n2), "adjactor.NullImageIterator compares unequal", "");
       }
       const Index nmax = T ? 7 : 5;
       for(Index n = 1; n <= nmax; ++n)
@@ -924,6 +967,52 @@ int main(int argc, char** argv)
               Coloring mv(std::move(cl));
               check_coloring_result(c, g, mv, "coloring.move", "");
               c.check(cl.empty() && cl.get_num_colors() == 0, "coloring.move source not emptied", "");
+              // allocation constructor filled through the accessor; move assignment into a filled colouring
+              Coloring al(n, col.get_num_colors());
+              for(Index i = 0; i < n; ++i) al[i] = cv[i];
+              check_coloring_result(c, g, al, "coloring.allocation ctor result", "");
+              Coloring tgt(n, cv.data());
+              Coloring src = col.clone();
+              tgt = std::move(src);
+              check_coloring_result(c, g, tgt, "coloring.move-assign", "");
+              c.check(src.empty() && src.get_num_colors() == 0, "coloring.move-assign source not emptied", "");
+              tgt = std::move(tgt);
+              check_coloring_result(c, g, tgt, "coloring.self-move-assign", "");
+              // ColoringDataHandler: one index map per colour listing exactly the nodes of that colour
+              auto check_handler = [&](const ColoringDataHandler& h, Index nc, const std::vector<Index>& colv, const std::string& key)
+              {
+                bool ok = h.get_num_colors() == nc && h.initialized() == (nc > 0);
+                Index mx = 0;
+                for(Index k = 0; ok && k < nc; ++k)
+                {
+                  IV want; for(Index i = 0; i < colv.size(); ++i) if(colv[i] == k) want.push_back(i);
+                  mx = std::max(mx, Index(want.size()));
+                  if(h.get_color_size(k) != want.size() || h.get_color_sizes().at(k) != want.size()) { ok = false; break; }
+                  for(Index i = 0; i < want.size(); ++i) if(Index(h.get_color_map(k)[i]) != want[i]) ok = false;
+                  if(h.get_coloring_maps().at(k) != h.get_color_map(k)) ok = false;
+                }
+                if(ok && (h.get_max_color_size() != mx || h.get_max_size() != mx)) ok = false;
+                c.check(ok, key, [&]{ return "colouring " + str(colv); });
+              };
+              {
+                ColoringDataHandler h(col);
+                check_handler(h, col.get_num_colors(), cv, "coloring_data_handler(Coloring)");
+                ColoringDataHandler h2(std::move(h));
+                check_handler(h2, col.get_num_colors(), cv, "coloring_data_handler move ctor");
+                c.check(!h.initialized(), "coloring_data_handler move ctor source still initialised", "");
+                std::vector<int> civ(cv.begin(), cv.end());
+                ColoringDataHandler h3(civ);
+                check_handler(h3, col.get_num_colors(), cv, "coloring_data_handler(std::vector<int>)");
+                ColoringDataHandler h4(civ, int(col.get_num_colors()) + 1); // hint: one more (empty) colour
+                check_handler(h4, col.get_num_colors() + 1, cv, "coloring_data_handler(std::vector<int>, hint)");
+                h3 = std::move(h4); // move assignment into a filled handler releases the old maps
+                check_handler(h3, col.get_num_colors() + 1, cv, "coloring_data_handler move-assign");
+                h3.release_color();
+                c.check(!h3.initialized() && h3.get_num_colors() == 0, "coloring_data_handler release_color", "");
+                h3.fill_color(col); // re-use after release
+                check_handler(h3, col.get_num_colors(), cv, "coloring_data_handler fill_color after release");
+                c.count("color_data_handlers", 6);
+              }
             }
           }
           for(const IV& ord : orders)
